@@ -54,6 +54,11 @@ CLAIMED = {
   "text": "Decides that every URL the builder returns keeps the endpoint's scheme/host (copy or path-only ResolveReference, no authority store), carries the client's RawQuery, that request-derived segments joined under a base path are sanitised first, that configured health/model paths are resolved with path.Join under the base path, and that engines build upstream requests from (inbound method, builder URL for the attempt's endpoint, inbound body). It does not decide ServeMux path cleaning or percent-encoding round trips.",
   "note": "Trusted: net/url.ResolveReference semantics for path-only references; path.Clean. Known genuine defect F13 (preserve_path join without dot-segment guard; the repo's own tests assert the traversal result, so it cannot be repaired with the suite unedited) is in known_findings.json.",
  },
+ "C03": {
+  "technique": "static analysis: interprocedural slice provenance (parameters to all call sites, interface results to all implementations, filters as subset summaries), guard/copy check of the repository getters, lockset by dominance, selector membership, who-may-write on Endpoint.Status, retry-loop cycle rules",
+  "text": "Decides that every dispatch's candidate list ultimately comes from the healthy-endpoint query, that the repository getters filter by the promised status and hand out copies under the lock, that balancers return routable members of their input without modifying it, that the retry loop dispatches to what Select returned for a list that only ever shrinks, that only a health-check result can make an endpoint routable, and that a connection-level failure marks the endpoint offline before the next attempt. It does not decide histories under racing status writers.",
+  "note": "Trusted: interface dispatch resolved CHA-style by method name and types.Implements (over-approximate); go/ssa. Rules R6/R8 are the retry-loop rules of C04 re-evaluated under this property's ids.",
+ },
 }
 _PENDING = "check not built yet in this session; see DESIGN.md §5 for the planned static rules"
 NOT_APPLICABLE = {f"C{i:02d}": _PENDING for i in range(1, 21)}
